@@ -116,6 +116,10 @@ def observe_equal(d, m):
     # equality against the merged dict form
     if not (d == dict(m.merged())):
         return "== merged dict"
+    # ... and against the same content given line by line (a source that repeats names is longer than the dict itself)
+    lines = list(m.lines())
+    if len(lines) != len(d) and not (d == lines):
+        return "== list of header lines"
     for (n, v) in m.lines():
         if (n, v) not in d.items():
             return "items() membership"
